@@ -41,9 +41,37 @@ Qed.
 
 Definition edge_ok (N : Z) (e : edge) : Prop := 0 <= fst e < snd e /\ snd e < N.
 
+Lemma NoDup_app_disj {A} (l1 l2 : list A) :
+  NoDup l1 -> NoDup l2 -> (forall x, In x l1 -> ~ In x l2) -> NoDup (l1 ++ l2).
+Proof.
+  induction l1 as [|a t IH]; cbn; intros H1 H2 Hd; [assumption|].
+  inversion H1; subst. constructor.
+  - intros Hin. apply in_app_or in Hin as [Hin|Hin]; [contradiction | apply (Hd a); auto].
+  - apply IH; auto.
+Qed.
+
+Lemma NoDup_filter' {A} (p : A -> bool) l : NoDup l -> NoDup (filter p l).
+Proof.
+  induction 1 as [|a t Hn Hd IH]; cbn; [constructor|]. destruct (p a); [|assumption].
+  constructor; [|assumption]. intros Hin. apply filter_In in Hin as [Hin _]. contradiction.
+Qed.
+
+(* the declared part of the final list: exactly the valid keyified declared edges, each once *)
+Lemma norm_edges_In N E e : In e (norm_edges N E) <-> In e (filter (evalid N) (map kedge E)).
+Proof.
+  unfold norm_edges. split.
+  - intros H. now apply (fresh_In edge_eqb (fun e => e) edge_eqb_spec) in H as [H _].
+  - intros H. destruct (fresh_complete edge_eqb (fun e : edge => e) edge_eqb_spec [] _ e H) as [[]|H1].
+    now rewrite map_id in H1.
+Qed.
+
+Lemma norm_edges_NoDup N E : NoDup (norm_edges N E).
+Proof. apply fresh_id_NoDup. Qed.
+
 Theorem edges_thm c r r' : prepare c r = Ok r' ->
   let N := zlen (vertices r) in
-  edges r' = filter (evalid N) (map kedge (edges r)) ++ filter (evalid N) (added_edges c r)
+  edges r' = norm_edges N (edges r) ++ filter (evalid N) (added_edges c r)
+  /\ NoDup (edges r')
   /\ NoDup (added_edges c r)
   /\ (forall e, In e (added_edges c r) -> ~ In e (map kedge (edges r)))
   /\ (forall e, In e (added_edges c r) -> exists f, In f (faces r') /\ In e (face_sides f))
@@ -52,45 +80,54 @@ Theorem edges_thm c r r' : prepare c r = Ok r' ->
   /\ Forall (edge_ok N) (edges r').
 Proof.
   intros H N. apply prepare_fields in H as (Hv & Hc & Hf & He). fold N in He.
-  rewrite map_app, filter_app, added_edges_keyed in He.
-  split; [exact He|]. split; [apply added_edges_NoDup|].
-  split; [intros e Hin; now apply added_edges_In in Hin|].
+  set (E := edges r) in *. set (A := added_edges c r) in *.
+  assert (Hdis : forall e, In e A -> ~ In e (map kedge E)) by (intros e Hin; now apply added_edges_In in Hin).
+  assert (HeA : filter (evalid N) A = fresh edge_eqb (fun e => e)
+                   (rev (fresh edge_eqb (fun e => e) [] (filter (evalid N) (map kedge E))) ++ []) (filter (evalid N) A)).
+  { symmetry. apply fresh_all_id; [apply NoDup_filter', added_edges_NoDup|].
+    intros x Hx Hs. rewrite app_nil_r in Hs. apply in_rev in Hs.
+    apply (fresh_In edge_eqb (fun e => e) edge_eqb_spec) in Hs as [Hs _].
+    apply filter_In in Hs as [Hs _]. apply filter_In in Hx as [Hx _]. now apply (Hdis x). }
+  assert (Heq : edges r' = norm_edges N E ++ filter (evalid N) A).
+  { rewrite He. unfold norm_edges. rewrite map_app, filter_app. unfold A at 1. rewrite added_edges_keyed. fold A.
+    rewrite fresh_app_id. now rewrite <- HeA. }
+  split; [exact Heq|]. split.
+  { rewrite Heq. apply NoDup_app_disj; [apply norm_edges_NoDup | apply NoDup_filter', added_edges_NoDup|].
+    intros x Hx Hy. apply norm_edges_In, filter_In in Hx as [Hx _]. apply filter_In in Hy as [Hy _]. now apply (Hdis x). }
+  split; [apply added_edges_NoDup|]. split; [exact Hdis|].
   split; [intros e Hin; rewrite Hf; now apply added_edges_In in Hin|].
   split; [intros Hs f s; rewrite Hf; now apply added_edges_complete|].
-  rewrite He, <- added_edges_keyed, <- filter_app, <- map_app. apply Forall_forall. intros e Hin.
-  apply filter_In in Hin as [Hin Hval]. apply in_map_iff in Hin as [e0 [<- _]].
-  now apply evalid_keyed_range.
+  rewrite Heq. apply Forall_forall. intros e Hin. apply in_app_or in Hin as [Hin|Hin].
+  - apply norm_edges_In, filter_In in Hin as [Hin Hval]. apply in_map_iff in Hin as [e0 [<- _]]. now apply evalid_keyed_range.
+  - apply filter_In in Hin as [Hin Hval]. apply added_edges_In in Hin as [[f [_ Hs]] _].
+    rewrite <- (face_side_keyed f e Hs) in *. now apply evalid_keyed_range.
 Qed.
 
 (* every valid side of every face is an edge of the finished object, when completion is on *)
 Corollary sides_present c r r' : prepare c r = Ok r' -> snd c = true ->
   forall f s, In f (faces r') -> In s (face_sides f) -> evalid (zlen (vertices r)) s = true -> In s (edges r').
 Proof.
-  intros H Hc f s Hf Hs Hv. destruct (edges_thm c r r' H) as (He & _ & _ & _ & Hall & _).
-  rewrite He, <- filter_app. apply filter_In. split; [|assumption]. eapply Hall; eauto.
+  intros H Hc f s Hf Hs Hv. destruct (edges_thm c r r' H) as (He & _ & _ & _ & _ & Hall & _).
+  rewrite He. apply in_or_app. destruct (in_app_or _ _ _ (Hall Hc f s Hf Hs)) as [Hin|Hin].
+  - left. apply norm_edges_In, filter_In. auto.
+  - right. apply filter_In. auto.
 Qed.
 
-(* an added side occurs exactly once in the final edge list *)
+(* every edge of the final list - declared or added - occurs exactly once *)
 Definition edge_dec (x y : edge) : {x = y} + {x <> y}.
 Proof. decide equality; apply Z.eq_dec. Defined.
 
-Lemma count_occ_filter_le (p : edge -> bool) l e : (count_occ edge_dec (filter p l) e <= count_occ edge_dec l e)%nat.
+Corollary edge_once c r r' : prepare c r = Ok r' ->
+  forall e, In e (edges r') -> count_occ edge_dec (edges r') e = 1%nat.
 Proof.
-  induction l as [|x t IH]; cbn; [lia|]. destruct (p x); cbn; destruct (edge_dec x e); lia.
+  intros H e Hin. destruct (edges_thm c r r' H) as (_ & Hnd & _). now apply NoDup_count_occ'.
 Qed.
 
 Corollary added_side_once c r r' : prepare c r = Ok r' ->
   forall e, In e (added_edges c r) -> evalid (zlen (vertices r)) e = true -> count_occ edge_dec (edges r') e = 1%nat.
 Proof.
-  intros H e Hin Hv. destruct (edges_thm c r r' H) as (He & Hnd & Hdis & _).
-  rewrite He, count_occ_app.
-  assert (H0 : count_occ edge_dec (filter (evalid (zlen (vertices r))) (map kedge (edges r))) e = 0%nat).
-  { apply count_occ_not_In. intros Hx. apply filter_In in Hx as [Hx _]. now apply (Hdis e). }
-  assert (H1 : (count_occ edge_dec (filter (evalid (zlen (vertices r))) (added_edges c r)) e >= 1)%nat).
-  { apply count_occ_In. apply filter_In. auto. }
-  pose proof (count_occ_filter_le (evalid (zlen (vertices r))) (added_edges c r) e) as H2.
-  assert (H3 : count_occ edge_dec (added_edges c r) e = 1%nat) by (apply NoDup_count_occ'; assumption).
-  lia.
+  intros H e Hin Hv. apply (edge_once c r r' H). destruct (edges_thm c r r' H) as (He & _). rewrite He.
+  apply in_or_app. right. apply filter_In. auto.
 Qed.
 
 (* ------------------------------------------------------------ what a "side" is: consecutive vertices, cyclically
